@@ -767,7 +767,7 @@ def c08(ix: Index) -> None:
     first_complete: dict[int, tuple] = {}
     obs = []
     for r in ix.R:
-        if r['k'] in ('aw_end', 'proc_end', 'accessed') and r.get('snap') is not None:
+        if r['k'] in ('aw_end', 'proc_end', 'accessed', 'child_seen') and r.get('snap') is not None:
             obs.append((r['seq'], r['ev'], r['snap'], r['k']))
     for ev, f in ix.final['events'].items():
         obs.append((ix.end_seq, ev, tuple(f['snap']) if not isinstance(f['snap'], tuple) else f['snap'], 'final'))
